@@ -472,10 +472,15 @@ func dxGenPolicy(t *rapid.T, label string, n int, s dxSession) dxPolicy {
 
 // dxPrepend prepends one ASN: to the leading AS_SEQUENCE, or as a new leading
 // AS_SEQUENCE when the path is empty or starts with an AS_SET (RFC 4271
-// §5.1.2 b). Segment overflow (255) is outside the generated domain.
+// §5.1.2 b), or as a new leading segment when the leading AS_SEQUENCE is full (255 ASNs).
 func dxPrepend(a dxAttrs, asn uint32) dxAttrs {
 	a = a.clone()
 	if len(a.ASPath) == 0 || a.ASPath[0].Set {
+		a.ASPath = append([]dxSeg{{ASNs: []uint32{asn}}}, a.ASPath...)
+		return a
+	}
+	if len(a.ASPath[0].ASNs) >= 255 {
+		// RFC 4271 §5.1.2 a) 1): a full leading AS_SEQUENCE gets a new segment in front
 		a.ASPath = append([]dxSeg{{ASNs: []uint32{asn}}}, a.ASPath...)
 		return a
 	}
